@@ -138,6 +138,14 @@ def local_defs(fn) -> Dict[str, List[Def]]:
     return d
 
 
+def clone(node):
+    """fresh copy of an expression AST (the module trees carry parent links, so copy.deepcopy
+    would drag the whole module along)"""
+    if isinstance(node, ast.expr):
+        return ast.parse(ast.unparse(node), mode="eval").body
+    return ast.parse(ast.unparse(node)).body[0]
+
+
 def expand(expr, fn, max_depth=8, _defs=None, _seen=None):
     """copy of `expr` in which every local name with exactly one plain assignment is replaced
     by (the expansion of) its defining expression.  Flow-insensitive; used to look through
@@ -157,7 +165,7 @@ def expand(expr, fn, max_depth=8, _defs=None, _seen=None):
         def visit_Lambda(self, node):
             return node
 
-    return T().visit(copy.deepcopy(expr))
+    return T().visit(clone(expr))
 
 
 # --------------------------------------------------------------------------
